@@ -29,6 +29,23 @@ def point(name: str) -> None:
     g["release"].wait()
 
 
+class Slow:
+    """A value whose == blocks at a gate the first time it is evaluated (the tracer evaluates the
+    comparison inside its callback, after check() and before recording)."""
+
+    __hash__ = object.__hash__
+
+    def __init__(self, name: str) -> None:
+        self.name = name
+        self.calls = 0
+
+    def __eq__(self, other) -> bool:
+        self.calls += 1
+        if self.calls == 1:
+            point(self.name)
+        return False
+
+
 def nap() -> None:
     while True:
         time.sleep(3600)
